@@ -161,7 +161,59 @@ mut("tacd-unwrap-accept", "C17", "tacd/src/openssl_server.rs", "\t\t\t\t\tif let
 mut("tacd-serial-accept", "C17", "tacd/src/openssl_server.rs", "\t\t\t\tthread::spawn(move || {", "\t\t\t\tlet _ = (move || {",
     "placeholder", )
 
+# ---- part 2: one change per oracle clause that no earlier change had been seen to fire
+S = "acmed/src/account/storage.rs"
+mut("always-newaccount", "C11", A + "account.rs", "\t\tif !acc_ep.account_url.is_empty() {\n\t\t\tif let Some(ec)", "\t\tif !acc_ep.account_url.is_empty() && self.contacts.len() > 99 {\n\t\t\tif let Some(ec)",
+    "newAccount sent at every renewal although a URL is stored")
+mut("contacts-updated-twice", "C11", A + "account.rs", "\t\t\tif contacts_changed {\n\t\t\t\tupdate_account_contacts(endpoint, self).await?;\n\t\t\t}",
+    "\t\t\tif contacts_changed {\n\t\t\t\tupdate_account_contacts(endpoint, self).await?;\n\t\t\t\tupdate_account_contacts(endpoint, self).await?;\n\t\t\t}", "two updates for one changed item")
+mut("past-keys-not-saved", "C11", S, "\t\tpast_keys,\n\t\texternal_account,\n\t};\n\tlet encoded", "\t\tpast_keys: if past_keys.len() > 1 { past_keys[1..].to_vec_lossy() } else { past_keys },\n\t\texternal_account,\n\t};\n\tlet encoded",
+    "placeholder")
+mut("oldest-past-key-dropped", "C11", A + "account.rs", "\t\t\tself.past_keys.push(self.current_key.to_owned());", "\t\t\tself.past_keys = vec![self.current_key.to_owned()];",
+    "only the latest superseded key is kept: an endpoint two roll-overs behind can no longer be rolled over")
+mut("orders-url-not-loaded", "C11", S, "\t\t\torders_url: self.orders_url.clone(),\n\t\t\tkey_hash: self.key_hash.clone(),\n\t\t\tcontacts_hash: self.contacts_hash.clone(),\n\t\t\texternal_account_hash: self.external_account_hash.clone(),\n\t\t}\n\t}\n}\n\n#[derive(Serialize, Deserialize, PartialEq, Debug)]\nstruct AccountStorage",
+    "\t\t\torders_url: String::new(),\n\t\t\tkey_hash: self.key_hash.clone(),\n\t\t\tcontacts_hash: self.contacts_hash.clone(),\n\t\t\texternal_account_hash: self.external_account_hash.clone(),\n\t\t}\n\t}\n}\n\n#[derive(Serialize, Deserialize, PartialEq, Debug)]\nstruct AccountStorage",
+    "orders URL lost at every load")
+mut("corrupt-account-file-ignored", "C11", S, "\tdo_fetch(file_manager, name).await.map_err(|_| {\n\t\tformat!(\"account \\\"{name}\\\": unable to load account file: file may be corrupted\").into()\n\t})",
+    "\tmatch do_fetch(file_manager, name).await {\n\t\tOk(a) => Ok(a),\n\t\tErr(_) => Ok(None),\n\t}", "an unreadable account file is treated as no account: a new identity replaces it")
+mut("account-url-mangled", "C11", A + "acme_proto/account.rs", "\taccount.set_account_url(&endpoint.name, &account_url)?;", "\taccount.set_account_url(&endpoint.name, account_url.trim_end_matches(char::is_numeric))?;",
+    "stored account URL is not the one the CA gave")
+mut("sync-on-a-copy", "C12", A + "acme_proto.rs", "\taccount_s\n\t\t.write()\n\t\t.await\n\t\t.synchronize(&mut *(endpoint_s.write().await))\n\t\t.await?;",
+    "\tlet mut acc_copy = account_s.read().await.clone();\n\tacc_copy\n\t\t.synchronize(&mut *(endpoint_s.write().await))\n\t\t.await?;\n\t*account_s.write().await = acc_copy;",
+    "account synchronised on a copy taken under the read lock: two certificates of a new account both register")
+mut("always-success", "C07", A + "main_event_loop.rs", "\t\t\t\t(e.message, false)", "\t\t\t\t(e.message, true)", "failed attempt reported to the post-operation hooks as success")
+mut("error-text-dropped", "C07", A + "main_event_loop.rs", "\t\t\t\t(e.message, false)", "\t\t\t\t(String::new(), false)", "failure reported without its error text")
+mut("error-text-generic", "C07", A + "main_event_loop.rs", "\t\t\t\t(e.message, false)", "\t\t\t\t(\"unable to renew the certificate\".to_string(), false)", "failure reported with a generic text")
+mut("4xx-taken-for-success", "C08", A + "http.rs", "\tif !response.status().is_success() {\n\t\tlet status = response.status();", "\tif response.status().is_server_error() {\n\t\tlet status = response.status();",
+    "a 4xx answer is taken for success")
+mut("retry-bound-11", "C08", A + "http.rs", "for _ in 0..crate::DEFAULT_HTTP_FAIL_NB_RETRY {", "for _ in 0..=crate::DEFAULT_HTTP_FAIL_NB_RETRY {", "11 transmissions")
+mut("poll-bound-25", "C08", A + "acme_proto/http.rs", "\t\tfor _ in 0..crate::DEFAULT_POOL_NB_TRIES {", "\t\tfor _ in 0..crate::DEFAULT_POOL_NB_TRIES + 5 {", "25 polls")
+mut("retry-body-changes", "C08", A + "http.rs", ["for _ in 0..crate::DEFAULT_HTTP_FAIL_NB_RETRY {", "\t\tlet body = data_builder(nonce, url)?;"],
+    ["for attempt_nb in 0..crate::DEFAULT_HTTP_FAIL_NB_RETRY {", "\t\tlet url_sent = if attempt_nb > 0 { format!(\"{url}?retry={attempt_nb}\") } else { url.to_string() };\n\t\tlet body = data_builder(nonce, &url_sent)?;"],
+    "the protected header of a retransmission names another URL than the first transmission")
+mut("limiter-stops-admitting", "C09", A + "endpoint.rs", "\t\t\tif self.request_allowed() {", "\t\t\tif self.request_allowed() && self.query_log.len() < 12 {",
+    "once 12 requests sit in the log nothing is admitted until they are pruned, whatever the limits allow")
+mut("hard-failure-ignored", "C10", A + "hooks.rs", "\t\tcall_single(logger, data, hook)\n\t\t\t.await\n\t\t\t.map_err(|e| e.prefix(&hook.name))?;", "\t\tlet _ = call_single(logger, data, hook).await;",
+    "a failing hook without allow_failure does not stop the sequence")
+mut("clean-hook-other-proof", "C10", A + "acme_proto.rs", "\t\t\t\tdata.0.is_clean_hook = true;", "\t\t\t\tdata.0.is_clean_hook = true;\n\t\t\t\tdata.0.proof = String::new();",
+    "clean hooks get an empty proof")
+mut("file-hook-name-is-path", "C10", A + "storage.rs", "\t\tfile_name,\n\t\tfile_directory,", "\t\tfile_name: file_directory.clone(),\n\t\tfile_directory,", "file hooks get the directory as file_name")
+mut("stdout-path-not-rendered", "C10", A + "hooks.rs", "\t\t\t\tlet path = render_template(path, $data)?;", "\t\t\t\tlet path = path.to_string();", "stdout/stderr path used without template rendering")
+mut("post-operation-status-empty", "C10", A + "certificate.rs", "\t\t\tstatus: status.to_string(),", "\t\t\tstatus: String::new(),", "post-operation hooks get an empty status")
+mut("multi-typed-hooks-always-run", "C10", A + "hooks.rs", ".filter(|h| h.hook_type.contains(&hook_type))", ".filter(|h| h.hook_type.contains(&hook_type) || h.hook_type.len() > 1)",
+    "a hook with several types runs at every event")
+mut("failed-challenge-hook-ignored", "C05", A + "certificate.rs", "\t\thooks::call(self, &self.hooks, &hook_data, hook_type.0).await?;", "\t\tlet _ = hooks::call(self, &self.hooks, &hook_data, hook_type.0).await;",
+    "the CA is told the challenge is ready although its hook failed")
+mut("http-file-name-suffixed", "C05", A + "acme_proto/structs/authorization.rs", "\t\t\tChallenge::Http01(tc) => tc.token.to_owned(),", "\t\t\tChallenge::Http01(tc) => format!(\"{}.txt\", tc.token),", "http-01 file name is not the token")
+mut("tls-raw-proof-hex", "C05", A + "acme_proto/structs/authorization.rs", "\t\t\t\tlet b64_hash = b64_encode(&proof);", "\t\t\t\tlet b64_hash = b64_encode(&ka);", "raw_proof is not the digest")
+mut("reverse-dns-not-reversed", "C05", A + "identifier.rs", "\t\t\t\t\t\t.octets()\n\t\t\t\t\t\t.iter()\n\t\t\t\t\t\t.rev()\n\t\t\t\t\t\t.map(|v| v.to_string())", "\t\t\t\t\t\t.octets()\n\t\t\t\t\t\t.iter()\n\t\t\t\t\t\t.map(|v| v.to_string())",
+    "IPv4 reverse-DNS name not reversed")
+mut("subject-attributes-dropped", "C01", A + "acme_proto.rs", "\t\t&cert.subject_attributes,\n\t)?;", "\t\t&Default::default(),\n\t)?;", "CSR without the configured subject attributes")
+mut("kp-reuse-ignored", "C01", A + "acme_proto/certificate.rs", "\tif cert.kp_reuse {", "\tif cert.kp_reuse && cert.identifiers.len() > 99 {", "a usable key is regenerated although kp_reuse is set")
+
 M[:] = [m for m in M if m["old"] is not None and m["why"] != "placeholder"]
+if os.environ.get("SWEEP_PART") == "2":
+    M[:] = M[[m["name"] for m in M].index("always-newaccount"):]
 
 
 def sh(cmd, **kw):
@@ -178,12 +230,16 @@ def main():
             continue
         path = os.path.join(REPO, m["file"])
         src = open(path).read()
-        n = src.count(m["old"])
-        if n != 1:
-            print("%-40s SKIP: pattern occurs %d times" % (m["name"], n), flush=True)
-            results[m["name"]] = {"status": "pattern_not_unique", "n": n}
+        olds = m["old"] if isinstance(m["old"], list) else [m["old"]]
+        news = m["new"] if isinstance(m["new"], list) else [m["new"]]
+        bad = [o for o in olds if src.count(o) != 1]
+        if bad:
+            print("%-40s SKIP: pattern occurs %d times: %r" % (m["name"], src.count(bad[0]), bad[0][:60]), flush=True)
+            results[m["name"]] = {"status": "pattern_not_unique", "n": src.count(bad[0])}
             continue
-        open(path, "w").write(src.replace(m["old"], m["new"]))
+        for o, n_ in zip(olds, news):
+            src = src.replace(o, n_)
+        open(path, "w").write(src)
         rec = {"props": m["props"], "file": m["file"], "why": m["why"], "expect_miss": m["expect_miss"], "checks": {}}
         try:
             for prop in m["props"]:
